@@ -17,9 +17,17 @@ package server
 //@ func (se *SSEnv) finalDirExists [C16]
 //@ trusted file-system query
 
+// the rename that publishes the directory changes the entry list of the snapshot ROOT directory (the
+// parent of both names): that is the directory that must be fsynced before FinalizeSnapshot reports
+// success -- the caller records the snapshot in the log store right afterwards
+//@ extern github.com/lni/vfs (fs FS) Rename
+//@ ghostset fileutil.gDirtyDir := uf("pathdir", newname)
 //@ func (se *SSEnv) renameToFinalDir [C16]
-//@ trusted file-system effects (rename + directory sync)
 //@ requires fileutil.gFlagDir == se.tmpDir
+//@ free requires uf("pathdir", se.finalDir) == se.rootDir && se.finalDir != se.rootDir && se.rootDir != 0
+//@ requires fileutil.gDirtyDir == 0
+//@ modifies fileutil.gDirtyDir
+//@ ensures result == nil ==> fileutil.gDirtyDir == 0
 
 // gFinalized: the snapshot directory has been published under its final name;
 // gFlagRemoved: its flag file has been removed (the snapshot counts as complete from then on)
@@ -27,10 +35,13 @@ package server
 //@ ghost var gFlagRemoved bool
 //@ func (se *SSEnv) FinalizeSnapshot [C16]
 //@ noframe
-//@ modifies fileutil.gFlagDir, held(finalizeLock), raftio.gDataMutated, gFinalized
+//@ free requires fileutil.gDirtyDir == 0
+//@ modifies fileutil.gFlagDir, fileutil.gDirtyDir, held(finalizeLock), raftio.gDataMutated, raftio.gPublished, gFinalized
 //@ ensures result == nil ==> fileutil.gFlagDir == se.tmpDir
+//@ ensures result == nil ==> fileutil.gDirtyDir == 0
 //@ ghostset raftio.gDataMutated := true
 //@ ghostset gFinalized := result == nil
+//@ ghostset raftio.gPublished := result == nil
 
 // ---------------------------------------------------------------- steps used by tools.ImportSnapshot (C20)
 // steps that modify a replica's snapshot directories say so through raftio.gDataMutated
